@@ -39,6 +39,7 @@ class Models:
         models_iter.register(self)
         from . import models_store
         models_store.register(self)
+        models_store.register_linked(self)
         from . import models_sched
         models_sched.register(self)
         from . import models_user
